@@ -69,6 +69,26 @@ def class_level_mutables(repo, cls):
     return out
 
 
+def class_level_written(repo, cls):
+    """class-level mutables of cls's hierarchy that some method writes into (through the class, type(self) or self)"""
+    shared = class_level_mutables(repo, cls)
+    out = set()
+    for k in repo.mro(cls):
+        for f in k.methods.values():
+            for n in ast.walk(f):
+                tgt = []
+                if isinstance(n, (ast.Assign, ast.AugAssign, ast.Delete)):
+                    tgt = [t.value for t in ([n.target] if isinstance(n, ast.AugAssign) else n.targets) if isinstance(t, ast.Subscript)]
+                elif isinstance(n, ast.Call) and isinstance(n.func, ast.Attribute) and n.func.attr in MUTATORS and n.func.attr not in PURE_READS:
+                    tgt = [n.func.value]
+                for t in tgt:
+                    if isinstance(t, ast.Attribute):
+                        nm = repo.mangle(k.name, t.attr)
+                        if nm in shared:
+                            out.add(nm)
+    return out
+
+
 def per_instance_state(ctx, rule, cls, reviewed_shared=()):
     """one instance per attribute of cls that is mutated in place through self"""
     repo = ctx.repo
@@ -95,4 +115,124 @@ def per_instance_state(ctx, rule, cls, reviewed_shared=()):
             ctx.violate(rule, where(k.relpath, k.name, None), label,
                         "`%s` exists only as a class-level mutable of %s and is mutated in place through self: every instance of the class (every stack, every connection of the process) shares it and sees the others' content" % (attr, k.name))
             n += 1
+    # instance attributes a constructor takes out of a class-level container that the class itself writes into (a
+    # per-class cache): the cached value was computed for - and usually refers to - the first instance
+    written = class_level_written(repo, cls)
+    for attr, (k, val) in sorted(inits.items()):
+        if attr in muts or attr in reviewed_shared:
+            continue
+        src = reads_class_level_mutable(repo, cls, k, val)
+        if src is not None and src in written and src != attr:
+            ctx.violate(rule, where(k.relpath, k.name + ".__init__", getattr(val, "lineno", None)), "self.%s = %s" % (attr, ast.unparse(val)[:60]),
+                        "the constructor takes `%s` out of the class-level container `%s`, which the class fills itself (a per-class cache): every instance after the first gets the value computed for the first one (bound methods, buffers and state of another instance)" % (attr, src))
+            n += 1
     return n
+
+
+# ------------------------------------------------------------------ mutable default arguments
+IMMUTABLE_CALLS = {"tuple", "frozenset", "str", "bytes", "int", "float", "bool", "object"}
+PARAM_MUTATORS = MUTATORS | {"MergeFrom", "MergeFromString", "ParseFromString", "CopyFrom", "Clear", "sort", "reverse"}
+
+
+def _shared_default(d):
+    """a default value that is one object shared by every call: a mutable literal or the result of a call"""
+    if isinstance(d, (ast.Dict, ast.List, ast.Set)):
+        return True
+    if isinstance(d, ast.Call):
+        f = d.func
+        name = f.id if isinstance(f, ast.Name) else (f.attr if isinstance(f, ast.Attribute) else None)
+        return name not in IMMUTABLE_CALLS
+    return False
+
+
+def _root_name(e):
+    while isinstance(e, (ast.Attribute, ast.Subscript)):
+        e = e.value
+    return e.id if isinstance(e, ast.Name) else None
+
+
+def default_findings(repo, cls, fn, relpath):
+    """[(param, how)] for parameters of fn whose shared default object is mutated or kept"""
+    a = fn.args
+    pos = a.posonlyargs + a.args
+    pairs = list(zip(pos[len(pos) - len(a.defaults):], a.defaults)) + [(p, d) for p, d in zip(a.kwonlyargs, a.kw_defaults) if d is not None]
+    out, n = [], 0
+    for p, d in pairs:
+        n += 1
+        if not _shared_default(d):
+            continue
+        aliases = {p.arg}
+        for st in ast.walk(fn):
+            if isinstance(st, ast.Assign) and isinstance(st.value, ast.Name) and st.value.id in aliases:
+                for t in st.targets:
+                    if isinstance(t, ast.Name):
+                        aliases.add(t.id)
+        how = None
+        for st in ast.walk(fn):
+            if isinstance(st, (ast.Assign, ast.AugAssign)):
+                for t in (st.targets if isinstance(st, ast.Assign) else [st.target]):
+                    if isinstance(t, (ast.Attribute, ast.Subscript)) and _root_name(t) in aliases:
+                        how = "written through (%s)" % ast.unparse(t)[:50]
+                    if isinstance(t, ast.Attribute) and isinstance(t.value, ast.Name) and t.value.id == "self" and isinstance(st, ast.Assign) \
+                            and isinstance(st.value, ast.Name) and st.value.id in aliases and cls is not None:
+                        attr = repo.mangle(cls.name, t.attr)
+                        if attr in mutated_through_self(repo, cls):
+                            how = "kept as self.%s, which the class mutates in place" % t.attr
+            if isinstance(st, ast.Call) and isinstance(st.func, ast.Attribute) and st.func.attr in PARAM_MUTATORS and _root_name(st.func.value) in aliases:
+                how = "mutated by .%s()" % st.func.attr
+        if how:
+            out.append((p.arg, ast.unparse(d)[:40], how))
+    return out, n
+
+
+FIXTURE = '''
+class _Fixture(object):
+    def __init__(self, props={}):
+        self._props = props
+    def setProp(self, k, v):
+        self._props[k] = v
+def _fixture_fn(message=dict()):
+    m = message
+    m["x"] = 1
+    return m
+'''
+
+
+def shared_defaults(ctx, rule, prefixes):
+    """one instance per parameter default in the given files; a default object shared by all calls (mutable literal or
+    call result) that the function mutates - or stores on self where the class mutates it - leaks state between calls,
+    instances, stacks"""
+    repo = ctx.repo
+    # positive fixture: the detector must recognise both shapes on every run
+    ft = ast.parse(FIXTURE)
+
+    class _K:
+        name = "_Fixture"
+        methods = {f.name: f for f in ft.body[0].body}
+        consts = {}
+
+    class _R:
+        @staticmethod
+        def mro(c):
+            return [c]
+        mangle = staticmethod(repo.mangle)
+    f1, _ = default_findings(_R, _K, ft.body[0].body[0], "<fixture>")
+    f2, _ = default_findings(_R, None, ft.body[1], "<fixture>")
+    if not f1 or not f2:
+        ctx.undecided(rule, where("", "", None), "positive fixture", "the mutable-default detector no longer recognises its fixture")
+        return
+    total = 0
+    for m in sorted(repo.modules.values(), key=lambda m: m.relpath):
+        if not any(m.relpath.startswith(p) for p in prefixes) or "/test_" in m.relpath or m.relpath.rsplit("/", 1)[-1].startswith("test_"):
+            continue
+        units = [(None, f) for f in m.functions.values()] + [(c, f) for c in m.classes.values() for f in c.methods.values()]
+        for c, f in units:
+            found, n = default_findings(repo, c, f, m.relpath)
+            total += n
+            qn = (c.name + "." if c else "") + f.name
+            for pname, dtxt, how in found:
+                repo.consulted.add(m.relpath)
+                ctx.violate(rule, where(m.relpath, qn, f.lineno), "parameter %s = %s" % (pname, dtxt),
+                            "the default `%s` is one object shared by every call and it is %s: what one call / instance puts into it is seen by the next" % (dtxt, how))
+    ctx.hold(rule, where("", "", None), "parameter defaults in %s" % ", ".join(prefixes)[:80], "%d defaults examined: none is a shared object that gets mutated" % total)
+    return total
